@@ -119,3 +119,29 @@ Qed.
 Lemma effective_total_none total connect sock_read sock_connect :
   effective_total total connect sock_read sock_connect = None <-> total = None.
 Proof. unfold effective_total. destruct total; split; intro H; try discriminate; reflexivity. Qed.
+
+(* the documented rounding, for the total timer and for the connect / sock_connect contexts *)
+Lemma total_deadline_rounding u nw t thr : 0 < u ->
+  nw + t <= total_when u nw t thr < nw + t + u /\
+  (t < thr -> total_when u nw t thr = nw + t) /\
+  (thr <= t -> total_when u nw t thr = ceil_to u (nw + t) /\ (total_when u nw t thr) mod u = 0).
+Proof.
+  intros Hu. repeat split.
+  - apply total_when_ge; assumption.
+  - pose proof (total_when_le u nw t thr Hu). pose proof (ceil_to_lt u (nw + t) Hu). lia.
+  - apply total_when_exact.
+  - apply total_when_ceiled; assumption.
+  - rewrite total_when_ceiled by assumption. apply ceil_to_multiple; assumption.
+Qed.
+
+Lemma ctx_deadline_rounding u nw t thr : 0 < u ->
+  nw + t <= ctx_when u nw t thr < nw + t + u /\
+  (t <= thr -> ctx_when u nw t thr = nw + t) /\
+  (thr < t -> ctx_when u nw t thr = ceil_to u (nw + t)).
+Proof.
+  intros Hu. repeat split.
+  - apply ctx_when_ge; assumption.
+  - pose proof (ctx_when_le u nw t thr Hu). pose proof (ceil_to_lt u (nw + t) Hu). lia.
+  - apply ctx_when_exact.
+  - intro H. unfold ctx_when. cbv zeta. destruct (thr <? t) eqn:E; [reflexivity|lia].
+Qed.
